@@ -238,6 +238,14 @@ theorem as_bytes_tie {ρ' : Type} (rf : Refuse) (st : List Bytes) (hp : Heap) (r
                                              omega
     rt_step [hlb, hk, hlt, hle, Handle.len, slice.from_raw_parts, Repr.self_ptr, Repr.as_bytes, textOf, norm_next]
 
+theorem from_raw_parts_mut_raw_ap {ρ : Type} (p : RawPtr) (cap : Nat) (s : St) :
+    (slice.from_raw_parts_mut p cap : M ρ SliceMut) s =
+      match p.own, p.h with
+      | true, .inl raw => if cap ≤ raw.length then .next ⟨0, cap⟩ s else .ub .oob
+      | false, .heap a _ => (match s.hp.get? a with | some b => if cap ≤ b.cap then .next ⟨0, cap⟩ s else .ub .oob | none => .ub .useAfterFree)
+      | true, .stat _ _ => .ub .writeStatic
+      | _, _ => .ub .oob := by cases s; rfl
+
 theorem as_slice_mut_tie {ρ' : Type} (rf : Refuse) (st : List Bytes) (hp : Heap) (r : Handle)
     (hraw : ∀ raw, r = .inl raw → raw.length = 16) :
     (norm (GenRepr.Repr.as_slice_mut_body ⟨rf, st, hp, r⟩) : Step ρ' SliceMut) = (Repr.as_slice_mut : M ρ' _) ⟨rf, st, hp, r⟩ := by
@@ -247,11 +255,11 @@ theorem as_slice_mut_tie {ρ' : Type} (rf : Refuse) (st : List Bytes) (hp : Heap
   | heap a l =>
     cases hg : hp.get? a with
     | none => rt_heap_none rf st hp a l hg [Repr.as_slice_mut, norm_ub]
-    | some b => rt_heap_some rf st hp a l hg [Repr.as_slice_mut, slice.from_raw_parts_mut, Nat.le_refl, norm_next]
-  | stat i l => rt_step [Repr.self_ptr, slice.from_raw_parts_mut, Repr.as_slice_mut, norm_ub]
+    | some b => rt_heap_some rf st hp a l hg [Repr.as_slice_mut, from_raw_parts_mut_raw_ap, Nat.le_refl, norm_next]
+  | stat i l => rt_step [Repr.self_ptr, from_raw_parts_mut_raw_ap, Repr.as_slice_mut, norm_ub]
   | inl raw =>
     have := hraw raw rfl
-    rt_step [this, hmi, Repr.self_ptr, slice.from_raw_parts_mut, Repr.as_slice_mut, Nat.le_refl, norm_next]
+    rt_step [this, hmi, Repr.self_ptr, from_raw_parts_mut_raw_ap, Repr.as_slice_mut, Nat.le_refl, norm_next]
 
 theorem as_str_mut_tie {ρ' : Type} (rf : Refuse) (st : List Bytes) (hp : Heap) (r : Handle)
     (hcap : ∀ a l b, r = .heap a l → hp.get? a = some b → l ≤ b.cap) :
